@@ -21,7 +21,7 @@ W_EXEC_COMPONENTS = {
 
 W_EXEC_ASSUMPTIONS = [
     'pre-emption granularity: one source line of openhtf / workload code plus every lock, event, sleep, join',
-    'async kill is delivered at the target thread\'s next traced line or blocking primitive (optionally delayed 0..12 lines)',
+    'async kill is delivered at the target thread\'s next traced line or blocking primitive (where CPython would raise it: the point at which the target thread resumes); the line events adjacent to a `with` statement are not steps',
     'executing code costs zero virtual time; only sleeps/timeouts advance the clock',
     'reference model M_exec follows docs/event_sequence.md as read in DESIGN.md Appendix A',
 ]
@@ -50,11 +50,13 @@ def warm_up():
     run_mod.run_spec(tp, spec)
 
 
-def run_with(tape, prof, oracle_fns, nontrivial_fn=None, executes=1, extra_threads=None):
+def run_with(tape, prof, oracle_fns, nontrivial_fn=None, executes=1, extra_threads=None, pre=None):
   g = gen_mod.Gen(tape, prof)
   spec = g.program()
+  if pre is not None:
+    pre(tape, spec)
   style = tape.draw(4, 'style')
-  obs = run_mod.run_spec(tape, spec, style=style, extra_threads=extra_threads)
+  obs = run_mod.run_spec(tape, spec, style=style, extra_threads=extra_threads, executes=executes)
   viols = []
   probes = {}
   act = oracles.Actual(obs)
